@@ -3,6 +3,8 @@
 // must report it on every run (it cannot tell `\\"` from `\"`).
 package lookbehind
 
+import "strings"
+
 func EndOfQuoted(q string) int {
 	pos := 1
 	for pos < len(q) && (q[pos] != '"' || q[pos-1] == '\\') {
@@ -39,4 +41,11 @@ func LastErrorOnly(xs []string, f func(string) (int, error)) ([]int, error) {
 		return nil, err
 	}
 	return out, nil
+}
+
+// ShiftTable is the positive control for C09/R9: for the last two table
+// entries the shift amount is 70 and 80.
+func ShiftTable(c byte) uint64 {
+	exp := 1 + strings.IndexByte("KMGTPEZY", c)
+	return uint64(1) << (10 * uint(exp))
 }
